@@ -54,6 +54,8 @@ def run(prog: Program, rep: Report, tier: str) -> None:
     nc = check_fresh_names(rep, prog, 'C05-D2 fresh-name', funcs)
     from ..rules.freshname import check_generators_once
     check_generators_once(rep, prog, 'C05-D2 fresh-name one-shot', [prog.func('fggs.utils', 'unique_label_name')])
+    from ..rules.freshname import check_returns_verified
+    rep.floor('C05-D2 fresh-name verified returns', check_returns_verified(rep, 'C05-D2 fresh-name verified', prog.func('fggs.utils', 'unique_label_name')), 1)
     rep.floor('C05-D2', nc, 2)
     avoid_parameter(rep, prog)
 
